@@ -20,7 +20,7 @@ var (
 	queryPort    = []uint32{80, 8080, 9000, 9090, 8081, 81, 7777} // portPool and a port nothing mentions
 	awEvery      = 150                                            // one case in awEvery of stream ambient has an op on the real index
 	reservedPool = []uint32{15006, 15001, 15008, 15021, 15090, 443}
-	clKinds      = []string{"router", "noauto", "noistio", "external", "passthrough", "ptdisabled", "ptnoistio", "drpassthrough", "drptdisabled", "drdisable", "dristio", "drsubsetdisable", "drsubsetfallback", "k8s", "k8snoistio"}
+	clKinds      = []string{"router", "noauto", "noistio", "external", "passthrough", "ptdisabled", "ptnoistio", "drpassthrough", "drptdisabled", "drdisable", "dristio", "drsubsetdisable", "drsubsetfallback", "k8s", "k8snoistio", "hbone", "two"}
 	realModes    = []string{"UNSET", "DISABLE", "PERMISSIVE", "STRICT"}
 	drToks       = []string{"nil", "nil", "nil", "DISABLE", "SIMPLE", "MUTUAL", "ISTIO_MUTUAL"}
 )
@@ -125,7 +125,7 @@ func gen(stream string, seed uint64, n int, outp string) {
 	out := wire.Create(outp)
 	defer out.Close()
 	rootRng := wire.NewRng(seed ^ 0xC10)
-	clTurn := int(seed % 15)
+	clTurn := int(seed % 17)
 	for c := 0; c < n; c++ {
 		r := rootRng.Fork()
 		root, nsPool := genRoot(r)
@@ -207,7 +207,103 @@ func gen(stream string, seed uint64, n int, outp string) {
 			if kind != "pod" && r.Chance(2, 3) {
 				meta = aim()
 			}
-			out.Line("aw", kind, wire.Enc(ns), encLabels(aim()), encLabels(meta))
+			awLine := []string{"aw", kind, wire.Enc(ns), encLabels(aim()), encLabels(meta)}
+			out.Line(awLine...)
+			// HISTORY: the index lives on; edit a policy through the kube client and read the same workload again
+			cur := append([]paIn(nil), pols...)
+			for e, ne := 0, r.Intn(3); e < ne; e++ {
+				switch {
+				case len(cur) > 0 && r.Chance(1, 2):
+					k := r.Intn(len(cur))
+					m := pickMode(r)
+					for m == cur[k].mtls {
+						m = pickMode(r)
+					}
+					var ports []portMode
+					if cur[k].hasSelector() && r.Chance(1, 2) {
+						ports = genPorts(r)
+					}
+					cur[k].mtls, cur[k].ports = m, ports
+					out.Line("pu", strconv.Itoa(k), m, encPorts(ports))
+				case len(cur) > 0 && r.Chance(1, 2):
+					k := r.Intn(len(cur))
+					cur = append(append([]paIn(nil), cur[:k]...), cur[k+1:]...)
+					out.Line("pd", strconv.Itoa(k))
+				default:
+					p := paIn{name: "h" + strconv.Itoa(e), ns: ns, time: wire.Pick(r, timePool), selNil: true, mtls: pickMode(r)}
+					if r.Chance(1, 3) {
+						p.ns = root
+					} else if r.Chance(2, 3) {
+						p.selNil, p.sel = false, aim()
+						if len(p.sel) == 0 {
+							p.sel = [][2]string{{"app", "a"}}
+						}
+						if r.Chance(1, 2) {
+							p.ports = genPorts(r)
+						}
+					}
+					cur = append(cur, p)
+					out.Line(p.line()...)
+				}
+				out.Line(awLine...)
+			}
+			if len(cur) != len(pols) {
+				pols = cur
+			}
+			copy(pols, cur)
+		}
+		if stream == "inbound" && r.Chance(1, 8) {
+			// a case with a HISTORY: one FakeDiscoveryServer for the whole case, read (hc), edit a policy through the
+			// config store (update / create / delete), read again on the same server and the same proxies
+			ns := pickNs()
+			labels := wire.Pick(r, labelPool)
+			if len(selPols) > 0 && r.Chance(2, 3) {
+				t := wire.Pick(r, selPols)
+				ns, labels = t.ns, append([][2]string(nil), t.sel...)
+			}
+			kind := wire.Pick(r, []string{"normal", "normal", "normal", "hbone", "router", "two:app=b"})
+			read := []string{"hc", wire.Enc(ns), encLabels(labels), wire.Enc(wire.Pick(r, nsPool)), kind, strconv.Itoa(int(wire.Pick(r, []uint32{80, 80, 8080, 81})))}
+			out.Line(read...)
+			cur := append([]paIn(nil), pols...)
+			for e, ne := 0, 2+r.Intn(3); e < ne; e++ {
+				switch {
+				case len(cur) > 0 && r.Chance(1, 2):
+					// edit: another mode (and other port-level settings on a selector policy)
+					k := r.Intn(len(cur))
+					m := pickMode(r)
+					for m == cur[k].mtls {
+						m = pickMode(r)
+					}
+					var ports []portMode
+					if cur[k].hasSelector() && r.Chance(1, 2) {
+						ports = genPorts(r)
+					}
+					cur[k].mtls, cur[k].ports = m, ports
+					out.Line("pu", strconv.Itoa(k), m, encPorts(ports))
+				case len(cur) > 0 && r.Chance(1, 2):
+					k := r.Intn(len(cur))
+					cur = append(append([]paIn(nil), cur[:k]...), cur[k+1:]...)
+					out.Line("pd", strconv.Itoa(k))
+				default:
+					// create: mostly in the namespace of the service or the root namespace, where it matters
+					p := paIn{name: "h" + strconv.Itoa(e), ns: ns, time: wire.Pick(r, timePool), selNil: true, mtls: pickMode(r)}
+					if r.Chance(1, 3) {
+						p.ns = root
+					} else if r.Chance(1, 2) {
+						p.selNil, p.sel = false, append([][2]string(nil), labels...)
+						if len(p.sel) == 0 {
+							p.sel = [][2]string{{"app", "a"}}
+						}
+						if r.Chance(1, 2) {
+							p.ports = genPorts(r)
+						}
+					}
+					cur = append(cur, p)
+					out.Line(p.line()...)
+				}
+				out.Line(read...)
+			}
+			continue
 		}
 		nq := 1 + r.Intn(3)
 		var again [][]string // compose: queries repeated after a spec edit (the version must change with the spec)
@@ -255,6 +351,16 @@ func gen(stream string, seed uint64, n int, outp string) {
 					if r.Chance(3, 5) {
 						kind = clKinds[clTurn%len(clKinds)]
 						clTurn++
+						if kind == "two" {
+							// a second endpoint, aimed at another selector policy of the namespace if there is one
+							l2 := wire.Pick(r, labelPool)
+							for _, p := range selPols {
+								if p.ns == ns && encLabels(p.sel) != encLabels(labels) && r.Chance(2, 3) {
+									l2 = p.sel
+								}
+							}
+							kind = "two:" + encLabels(l2)
+						}
 					}
 					out.Line("cl", wire.Enc(ns), encLabels(labels), wire.Enc(wire.Pick(r, nsPool)), kind, strconv.Itoa(int(wire.Pick(r, []uint32{80, 80, 8080, 9000, 81, 81}))))
 					break
